@@ -1022,6 +1022,18 @@ theorem inv_step (cfg : Cfg) (hx : cfg.ignoreExact = true) {st : St} (e : Ev) (h
     split
     · exact inv_addNames m t (inv_foreign _ h)
     · exact h
+  case foreignNames m t =>
+    split
+    · exact inv_addNames m t h
+    · exact h
+  case foreignMetric m =>
+    split
+    · exact inv_dicts _ _ _ h
+    · exact h
+  case foreignTagv m t =>
+    split
+    · exact inv_dicts _ _ _ h
+    · exact h
   case applyBegin =>
     split
     · split
@@ -1193,6 +1205,12 @@ theorem taken_acquired_step (cfg : Cfg) (hc : cfg.atomicAcquire = true) {st : St
     split
     · intro fl hfl; simp only [addNames_inflight] at hfl; exact h fl hfl
     · exact h
+  case foreignNames m t =>
+    split
+    · intro fl hfl; simp only [addNames_inflight] at hfl; exact h fl hfl
+    · exact h
+  case foreignMetric m => split <;> exact h
+  case foreignTagv m t => split <;> exact h
   case freeze =>
     split
     · unfold doFreeze
